@@ -108,6 +108,12 @@ func c06ConfigPath(ctx *Ctx, idx int) {
 	for i, f := range fns {
 		sb.WriteString(fmt.Sprintf("  - id: fan%d\n    curve: %s\n    file:\n      path: %s\n", i, f.id, fanFile))
 	}
+	for i, l := range lins {
+		// member curves are fans' curves as well (a CPU fan on the CPU curve, case fans on maximum(cpu, board))
+		if i%2 == 0 {
+			sb.WriteString(fmt.Sprintf("  - id: linfan%d\n    curve: %s\n    file:\n      path: %s\n", i, l.id, fanFile))
+		}
+	}
 	text := sb.String()
 	cfgPath := filepath.Join(dir, "fan2go.yaml")
 	_ = os.WriteFile(cfgPath, []byte(text), 0644)
@@ -149,6 +155,7 @@ func c06ConfigPath(ctx *Ctx, idx int) {
 			s.SetMovingAvg(temps[id])
 		}
 		vals := map[string]int{}
+		early := map[string]int{} // odd rounds: the function curves are evaluated before any of their members was, at this sensor state
 		eval := func(id string) (int, bool) {
 			c, ok := curves.GetSpeedCurve(id)
 			if !ok {
@@ -164,6 +171,15 @@ func c06ConfigPath(ctx *Ctx, idx int) {
 				return 0, false
 			}
 			return v, true
+		}
+		if round%2 == 1 {
+			for i := len(fns) - 1; i >= 0; i-- {
+				v, ok := eval(fns[i].id)
+				if !ok {
+					return
+				}
+				early[fns[i].id] = v
+			}
 		}
 		for _, l := range lins {
 			v, ok := eval(l.id)
@@ -187,11 +203,16 @@ func c06ConfigPath(ctx *Ctx, idx int) {
 			if !ok {
 				return
 			}
-			if want := refAgg(f.typ, mv); v != want {
+			want := refAgg(f.typ, mv)
+			if v != want {
 				ctx.Violation("config-path:function:"+f.typ+":wrong-aggregate", fmt.Sprintf("curve %s = %s%v with member values %v: %d, documented %d\n%s", f.id, f.typ, f.members, mv, v, want, text), replay)
 				return
 			}
 			vals[f.id] = v
+			if e, ok := early[f.id]; ok && e != want {
+				ctx.Violation("config-path:function:"+f.typ+":wrong-aggregate:evaluated-before-its-members", fmt.Sprintf("curve %s = %s%v evaluated first at a new sensor state: %d, documented %d (member values %v)\n%s", f.id, f.typ, f.members, e, want, mv, text), replay)
+				return
+			}
 		}
 	}
 	sortedMembers := true
